@@ -78,7 +78,8 @@ def check_calculate_index(prop, res, repo):
             res.fail("R-DRIVE", finding(prop, "R-DRIVE", ci, loops[0], "the recompute loop must set the active index through _set_active_index (which also moves the managed helpers), then calculate, round and store", construct="calculate_index: " + " -> ".join(names)))
     sai = repo.method("hexital.core.indicator", "Indicator", "_set_active_index")
     txt = ast.unparse(sai.node)
-    if "self._active_index = index" in txt and "self.managed_indicators.values()" in txt and "set_active_index(index)" in txt:
+    ip = next((a.arg for a in sai.node.args.args if a.arg != "self"), "index")
+    if f"self._active_index = {ip}" in txt and "self.managed_indicators.values()" in txt and f"set_active_index({ip})" in txt:
         res.ok("R-DRIVE", {"site": sai.where, "why": "moves the cursor of every Managed helper too"}, nontrivial="_set_active_index")
     else:
         res.fail("R-DRIVE", finding(prop, "R-DRIVE", sai, sai.node, "_set_active_index must also move the cursor of the managed helpers", construct="_set_active_index: managed helpers"))
